@@ -9,9 +9,9 @@ Lx == INSTANCE BclLex
 C == INSTANCE BclCompiler WITH LocalsMax <- 8, JumpMax <- 65535
 M == INSTANCE BclVM WITH StackSize <- 16, BlockStackSize <- 4
 \* ---- conversions between the L1 (string-named) and L2 (byte-named) worlds
-Keys == {"x", "y", "f", "g", "a", "b", "c", "n", "m", "z", "TYPE", "NAME", "a.n", "b.n", "c.n", "c.m", "a.m", "a.x", "a.z", "b.y", ""}
+Keys == {"x", "y", "f", "g", "a", "b", "c", "n", "m", "z", "TYPE", "NAME", "a.n", "b.n", "c.n", "c.m", "a.m", "a.x", "a.z", "b.y", "c.Q", "Q", "H", ""}
 KeyBytes(k) == CASE k = "a.n" -> <<97, 46, 110>> [] k = "b.n" -> <<98, 46, 110>> [] k = "c.n" -> <<99, 46, 110>> [] k = "c.m" -> <<99, 46, 109>>
-                 [] k = "a.m" -> <<97, 46, 109>> [] k = "a.x" -> <<97, 46, 120>> [] k = "a.z" -> <<97, 46, 122>> [] k = "b.y" -> <<98, 46, 121>>
+                 [] k = "a.m" -> <<97, 46, 109>> [] k = "a.x" -> <<97, 46, 120>> [] k = "a.z" -> <<97, 46, 122>> [] k = "b.y" -> <<98, 46, 121>> [] k = "c.Q" -> <<99, 46>> \o NameBytes("Q")
                  [] OTHER -> NameBytes(k)
 KeyStr(bs) == IF \E k \in Keys : KeyBytes(k) = bs THEN CHOOSE k \in Keys : KeyBytes(k) = bs ELSE "?"
 RECURSIVE BlkB(_)
